@@ -101,8 +101,14 @@ class Env(object):
             inherit = c.get('inherit')
             if inherit != 'single':
                 attrs['__tablename__'] = c['table']
+                targs = []
+                if c.get('pk_constraint'):
+                    # explicit PRIMARY KEY constraint whose column order differs from the declaration order
+                    targs.append(sa.PrimaryKeyConstraint(*c['pk_constraint']))
                 if c.get('schema'):
-                    attrs['__table_args__'] = {'schema': c['schema']}
+                    targs.append({'schema': c['schema']})
+                if targs:
+                    attrs['__table_args__'] = tuple(targs) if not isinstance(targs[-1], dict) or len(targs) > 1 else targs[0]
             if c.get('versioned') is not None and self.versioned:
                 v = dict(c['versioned'])
                 attrs['__versioned__'] = v
@@ -112,9 +118,11 @@ class Env(object):
                 if col.get('fk'):
                     args.append(sa.ForeignKey(col['fk']))
                 kw = {}
-                if col.get('pk'):
+                if col.get('pk') and not c.get('pk_constraint'):
                     kw['primary_key'] = True
                     kw['autoincrement'] = bool(col.get('autoincrement', False))
+                elif col.get('pk'):
+                    kw['autoincrement'] = False
                 for k in ('nullable', 'unique', 'index'):
                     if k in col:
                         kw[k] = col[k]
